@@ -130,7 +130,10 @@ def nesterov_loop_correspondence(R, cases, tier):
     agree (harness/narrow_corr9.py, harness/impl/narrowbtrace9.py)."""
     n = 110 if tier == "quick" else 900
     step = max(1, len(cases) // n)
-    tc = [dict(c1=c["c1"], c2=c["c2"], kw={}, meta=c["meta"]) for c in cases[::step]]
+    sel = cases[::step]
+    # every unwrapped primitive pair as well: there the jitted *_primitives variant is run against the model
+    sel += [c for c in cases if prim_ok(c["c1"]) and prim_ok(c["c2"]) and all(c is not x for x in sel)][: (80 if tier == "quick" else 700)]
+    tc = [dict(c1=c["c1"], c2=c["c2"], kw={}, prim=prim_ok(c["c1"]) and prim_ok(c["c2"]), meta=c["meta"]) for c in sel]
     try:
         nwk = min(cm.NCPU, max(1, len(tc) // 6))
         chunks = [tc[i::nwk] for i in range(nwk)]
@@ -157,6 +160,21 @@ def nesterov_loop_correspondence(R, cases, tier):
     stats["worker_lost"] = lost
     R.cov["nesterov_loop_correspondence"] = stats
     R.cov["traces_validated_against_impl"] = stats.get("matched", 0)
+    try:
+        pst, pmism = ncorr9.compare_prim(PID, tc, out, R.rng, lambda c: c["meta"]["L"])
+        R.cov["nesterov_primitives_model_runs"] = pst
+        R.cov["traces_validated_against_impl"] += pst.get("matched", 0)
+        if pmism:
+            sub = sorted({m[0] for m in pmism})
+            st2, pm2 = ncorr9.compare_prim(PID, [tc[i] for i in sub], [out[i] for i in sub], R.rng, lambda c: c["meta"]["L"],
+                                           tag="primcorr2", npert=24)
+            R.cov["nesterov_primitives_second_look"] = st2
+            for (j, k, why) in pm2[:5]:
+                c = tc[sub[j]]
+                R.corr_broken.append(f"Model/NesterovLoop.v (run from get_minkowski_diff) vs gjk_nesterov_accelerated_primitives "
+                                     f"(use_nesterov_acceleration={k == 'prim_acc'}): {why[:600]} on c1={json.dumps(c['c1'])} c2={json.dumps(c['c2'])}")
+    except RuntimeError as e:
+        R.corr_broken.append(f"Nesterov primitives model could not be evaluated: {str(e)[:300]}")
     if mism:
         sub = sorted({m[0] for m in mism})
         st2, mism2 = ncorr9.compare(PID, [tc[i] for i in sub], [out[i] for i in sub], R.rng, lambda c: c["meta"]["L"],
